@@ -60,6 +60,10 @@ struct Interp {
     std::unique_ptr<ezc3d::c3d> obj;
     std::vector<ezc3d::DataNS::Frame> slots;
     std::string slotDev[4];                          // deviation carried by each caller slot ("match" = none)
+    bool namesUpper = false;                         // after a load, group/parameter names exist in upper case: the caller refers to them as such
+    bool analogGroupEmpty = false;                   // object loaded from a file whose ANALOG group has no parameter
+    ParamSpec specOf(const Op &op) const;
+    std::string groupOf(long long g) const;
     bool halted = false;                             // history ended by an accepted undocumented deviation
     std::vector<ezc3d::DataNS::Frame> lastCol;       // caller's column vector of the last pcol/acol (kept for reuse)
     std::string dir;                                 // scratch directory (must exist)
